@@ -40,7 +40,10 @@ def check(prop, repo_root, tier, seed, replay=None, evidence_path=None, quiet=Fa
     t0 = time.time()
     ctx, mod = run_property(prop, repo_root, tier)
     extra = {}
-    if tier == "thorough":
+    viol0, _k, _t = report.classify(prop, ctx.instances)
+    if tier == "thorough" and viol0:
+        extra["selftest"] = "skipped: the tree under analysis already violates the property, variant expectations do not apply"
+    elif tier == "thorough":
         from . import selftest
         st = selftest.run_for(prop, repo_root, seed)
         extra["selftest"] = st["summary"]
